@@ -271,7 +271,7 @@ struct ECase {
 fn ecase() -> impl Strategy<Value = ECase> {
     (
         prop_oneof![Just(0u32), Just(1000), Just(10_000), Just(50_000)],
-        prop_oneof![Just(1200u16), Just(1350), Just(1500)],
+        prop_oneof![Just(1200u16), Just(1350), Just(1500), 1200u16..=1500],
         prop_oneof![Just(1u8), Just(4), Just(64)],
         1u32..4,
         // a finite window stays below the 7 consecutive probe timeouts after which the stack gives the path up
